@@ -182,8 +182,8 @@ def validate_request(ctx, rng):
           'quant': lambda: 'quant:' + C.rs(r['query'][1]), 'mut': lambda: f"mut:{r['query'][1]}:{C.rs(r['query'][2])}:{r['query'][3]}"}[r['query'][0]]
     qs = qs if isinstance(qs, str) else qs()
     n_epochs = 1
-    if r['sizes'] and r['query'][0] == 'mut':
-        n_epochs = 2 if any(t > 0 for t, _ in r['sizes']) else 1
+    if (r['sizes'] or r['rates']) and r['query'][0] == 'mut':
+        n_epochs = 2 if any(t > 0 for t, _ in r['sizes'] + r['rates']) else 1
         qs = f"mut:{r['query'][1]}:{C.rs(r['query'][2])}:{n_epochs}"
     line = (f"validate n={n} loci={r['loci']} viacfg={r['viacfg']} unl={r['unl']} rloc={C.rs(r['rloc'])} "
             f"rarg={'none' if r['rarg'] is None else C.rs(r['rarg'])} model={r['model']} alpha={C.rs(r['alpha'])} psi={C.rs(r['psi'])} c={C.rs(r['c'])} "
@@ -215,8 +215,9 @@ def validate_request(ctx, rng):
         nn = {'pop_0': n, 'pop_1': 0} if r['rates'] else n
         coal = pg.Coalescent(n=nn, model=m, demography=dem, loci=loci, recombination_rate=None if r['rarg'] is None else float(r['rarg']),
                              start_time=float(r['start']), end_time=None if r['end'] is None else float(r['end']), parallelize=False, pbar=False)
-        dist = dict(th=lambda: coal.tree_height, sfs=lambda: coal.sfs, fsfs=lambda: coal.fsfs)[r['dist']]()
         Q = r['query']
+        # cdf / quantile are always asked of the tree height; the other statistics of the chosen distribution
+        dist = None if Q[0] in ('cdf', 'quant') else dict(th=lambda: coal.tree_height, sfs=lambda: coal.sfs, fsfs=lambda: coal.fsfs)[r['dist']]()
         def rew(L):
             if r['dist'] == 'th':
                 return tuple(R.TreeHeightReward() for _ in range(L))
